@@ -1110,6 +1110,12 @@ def real_deco(case):
 
 
 def pair_worker(case):
+    """one case in a forked child: a crash of the real code is a result ('CRASH:...')"""
+    import pde  # noqa: F401
+    return forked_call(pair_worker_inner, case)
+
+
+def pair_worker_inner(case):
     quiet()
     k = case["kind"]
     if k == "req":
@@ -1179,7 +1185,7 @@ def run_pairs(ctx, batch):
         req = None
         if isinstance(res, str):
             # an exception nobody expected inside the worker: the tie for this case is broken, the others are still judged
-            pending.append((case, {"worker_exc": res[-600:]}, None, None))
+            pending.append((case, {"worker_exc": res if res.startswith("CRASH") else res[-600:]}, None, None))
             continue
         if k == "deco":
             req = batch.add("c04.replay_cache", {"cap": case["cap"], "ignore": {"f": case["ignore"], "g": case["ignore"]},
@@ -1262,7 +1268,7 @@ def judge_pairs(ctx, pending, answers):
         cj = slim(case)
         if "worker_exc" in res:
             ctx.count(cj, nontrivial=False, leg=leg + ":worker-exception")
-            ctx.disagree("worker-exception", cj, "no exception", res["worker_exc"], "unexpected exception while executing the real code for this case")
+            died(ctx, leg, cj, res["worker_exc"], k)
             continue
         if k == "deco":
             ctx.count(cj, nontrivial=len(set(res["answers"])) < len(res["answers"]), leg=leg)
@@ -1491,8 +1497,9 @@ def hist_exec(history, fresh):
     return result
 
 
-def forked(history, fresh):
-    """run in a child forked from this process (which must not have used py-pde yet)"""
+def forked_call(fn, *args):
+    """fn(*args) in a child forked from this process; 'CRASH:...' if the child dies or raises something that is not an
+    Exception (a segfault of the real code must become a result, not the end of the check)"""
     r, w = os.pipe()
     pid = os.fork()
     if pid == 0:
@@ -1500,7 +1507,9 @@ def forked(history, fresh):
         try:
             os.close(r)
             try:
-                res = hist_exec(history, fresh)
+                res = fn(*args)
+            except Exception:
+                res = "EXC: " + traceback.format_exc()[-1500:]
             except BaseException:
                 res = "CRASH:" + traceback.format_exc()[-600:]
             with os.fdopen(w, "wb") as fh:
@@ -1512,10 +1521,18 @@ def forked(history, fresh):
     os.close(w)
     with os.fdopen(r, "rb") as fh:
         data = fh.read()
-    os.waitpid(pid, 0)
+    _, status = os.waitpid(pid, 0)
     if not data:
-        return "CRASH:no-output"
+        return f"CRASH:no-output (wait status {status})"
     return pickle.loads(data)
+
+
+def forked(history, fresh):
+    """run in a child forked from this process (which must not have used py-pde yet)"""
+    res = forked_call(hist_exec, history, fresh)
+    if isinstance(res, str) and res.startswith("EXC: "):
+        return "CRASH:" + res[-600:]  # hist_exec catches every Exception of the real code itself
+    return res
 
 
 def same_result(a, b, tol=1e-9):
@@ -1901,7 +1918,8 @@ def real_heap(case):
 
 
 def heap_worker(case):
-    return real_heap(case)
+    import pde  # noqa: F401
+    return forked_call(real_heap, case)
 
 
 def gen_heap_jit_case(rng, hist):
@@ -1994,7 +2012,7 @@ def judge_heapdep_jit(ctx, cases, results):
     for c, r in zip(cases, results):
         ctx.count(c, nontrivial=True, leg="pairs:req:jit")
         if isinstance(r, str):
-            ctx.disagree("worker-exception", c, "no exception", r[-600:], "unexpected exception in the compiled heap-dependence monitor")
+            died(ctx, "pairs:req:jit", c, r, "NumbaBackend.make_operator")
             continue
         if "error" in r:
             ctx.hist("malformed", "heapdep-jit:" + r["error"][:40])
@@ -2012,9 +2030,10 @@ def jit_worker(item):
     """one process pool for everything that needs the JIT: compiled histories, compiled heap histories and the
     heap-dependence monitor on compiled operators"""
     if item.get("kind") == "heap":
-        return real_heap(item)
+        return heap_worker(item)
     if item.get("kind") == "heapdep":
-        return real_heapdep_jit(item)
+        import pde  # noqa: F401
+        return forked_call(real_heapdep_jit, item)
     return hist_worker(item)
 
 
@@ -2101,7 +2120,7 @@ def run_histories(ctx):
             leg = f"histories:{mode}"
             if isinstance(r, str):
                 ctx.count(h, nontrivial=False, leg=leg + ":worker-exception")
-                ctx.disagree("worker-exception", h, "no exception", r[-600:], "unexpected exception in the history worker")
+                died(ctx, leg, h, r, "history")
                 continue
             if "malformed" in r:
                 ctx.hist("malformed", r["malformed"][:50])
@@ -2211,6 +2230,18 @@ def fixed_histories_jit():
         {"op": "rhs", "pde": "p0", "state": "f0", "backend": "numba"}]}]
 
 
+def died(ctx, leg, case, r, call_site):
+    """a string instead of a result: the real code killed the interpreter ('CRASH:...': the property's monitor fails -
+    the call returns nothing at all, while nothing in the case is malformed) or raised where nothing may raise
+    ('EXC: ...': the tie for this case is broken)"""
+    if r.startswith("CRASH"):
+        ctx.monitor_evals += 1
+        ctx.monitor_fail(leg, case, {"symptom": "crash", "outcome": r[:300]}, {"a_result": True}, f"{leg}: the interpreter dies",
+                         key={"call_site": call_site, "symptom": "the interpreter dies (crash of the real code)"})
+    else:
+        ctx.disagree("worker-exception", case, "no exception", r[-600:], "unexpected exception while executing the real code for this case")
+
+
 def run_heap(ctx, batch):
     rng = ctx.rng
     n = ctx.budget(400, 5000)
@@ -2219,7 +2250,9 @@ def run_heap(ctx, batch):
     pend = []
     for c, r in zip(cases, res):
         if isinstance(r, str):
-            raise RuntimeError(f"heap worker failed: {r}")
+            ctx.count(c, nontrivial=False, leg="heap:died")
+            died(ctx, "heap", c, r, "heap")
+            continue
         i = batch.add("c04.replay_heap", {"inval": True, "check": True, "init": c["init"], "events": r["events"]})
         pend.append((c, r, i))
     return pend
@@ -2276,7 +2309,7 @@ def judge_heap_jit(ctx, cases, results):
         kinds = [e[0] for e in c["events"]]
         ctx.count(c, nontrivial="rate_jit" in kinds and any(k in kinds for k in ("write", "relink", "assign_new")), leg="heap:jit")
         if ii is None:
-            ctx.disagree("worker-exception", c, "no exception", r[-600:], "unexpected exception in the compiled heap history")
+            died(ctx, "heap:jit", c, r, "heap")
             continue
         ctx.impl_traces += 1
         models = []
@@ -2439,9 +2472,9 @@ def replay(ctx, rep):
         return bool(r["same"])
     if case.get("kind") == "heap":
         jit = bool(case.get("jit")) or leg == "heap:jit"
-        r = _iso("real_heap", case, jit)
+        r = _iso("heap_worker", case, jit)
         if isinstance(r, str):
-            print("worker exception:", r[-600:])
+            print("the real code died or raised:", r[-600:])
             return False
         b = LeanBatch(ctx.workdir)
         b.add("c04.replay_heap", {"inval": True, "check": True, "init": case["init"], "events": r["events"]})
@@ -2449,7 +2482,7 @@ def replay(ctx, rep):
         print("mode:", "compiled" if jit else "NUMBA_DISABLE_JIT=1", "read:", r["read"], "current content:", val.get("ref") if st == "ok" else val)
         return st == "ok" and list(val["ref"]) == list(r["read"])
     if case.get("kind") == "heapdep":
-        res = _iso("real_heapdep_jit", case, True)
+        res = _iso("jit_worker", case, True)
         if isinstance(res, str):
             print("worker exception:", res[-600:])
             return False
